@@ -89,6 +89,101 @@ func (x *runner) sweeps() {
 		run("fixedlength2-line-index", []byte(f2), []byte("HF\nH1\nF\nH1\nx\nF\nH1\nx\ny\nF\n"), false, "line-index")
 	}
 
+	// 2c. non-node-set xpaths (boolean / numeric / string expressions) in every xpath position
+	for xi, xp := range nonNodeSetXPaths {
+		// every expression in the positions of MatchAll / matchNode / MatchSingle; every fourth one
+		// (all of them in the thorough tier) in the full position matrix
+		full := xi%4 == 0 || x.o.Tier == "thorough"
+		q := fmt.Sprintf("%q", xp)
+		td := func(fo string, extra string) string {
+			return `"transform_declarations":{"FINAL_OUTPUT":` + fo + extra + `}`
+		}
+		xin := []byte(`<r><n id="0"><a>1</a><b>1</b></n><n id="1"><a>x</a><b>2</b></n></r>`)
+		jin := []byte(`[{"a":"1","b":"1"},{"a":"x","b":"2"}]`)
+		pos := map[string]string{
+			"field":         td(`{"xpath":"/r/n","object":{"v":{"xpath":`+q+`}}}`, ""),
+			"object":        td(`{"xpath":"/r/n","object":{"v":{"xpath":`+q+`,"object":{"k":{"xpath":"a"}}}}}`, ""),
+			"array-element": td(`{"xpath":"/r/n","object":{"v":{"array":[{"xpath":`+q+`},{"xpath":"a"}]}}}`, ""),
+			"array-object":  td(`{"xpath":"/r/n","object":{"v":{"array":[{"xpath":`+q+`,"object":{"k":{"xpath":"."}}}]}}}`, ""),
+			"custom-func":   td(`{"xpath":"/r/n","object":{"v":{"xpath":`+q+`,"custom_func":{"name":"concat","args":[{"xpath":"a"},{"xpath":`+q+`}]}}}}`, ""),
+			"template-site": td(`{"xpath":"/r/n","object":{"v":{"xpath":`+q+`,"template":"t"}}}`, `,"t":{"object":{"k":{"xpath":"a"}}}`),
+			"template-body": td(`{"xpath":"/r/n","object":{"v":{"template":"t"}}}`, `,"t":{"xpath":`+q+`,"object":{"k":{"xpath":"a"}}}`),
+			"xpath-dynamic": td(`{"xpath":"/r/n","object":{"v":{"xpath_dynamic":{"const":`+q+`}},"w":{"xpath_dynamic":{"const":`+q+`},"array":[{"xpath":"a"}]}}}`, ""),
+			"array-dynamic": td(`{"xpath":"/r/n","object":{"v":{"array":[{"xpath_dynamic":{"const":`+q+`}}]}}}`, ""),
+			"stream-target": td(`{"xpath":`+q+`,"object":{"v":{"xpath":"."}}}`, ""),
+			"stream-filter": td(`{"xpath":"/r/n[`+strings.ReplaceAll(xp, `"`, `'`)+`]","object":{"v":{"xpath":"a"}}}`, ""),
+		}
+		names := []string{"field", "array-element", "stream-target"}
+		if full {
+			names = []string{"field", "object", "array-element", "array-object", "custom-func", "template-site", "template-body", "xpath-dynamic", "array-dynamic", "stream-target", "stream-filter"}
+		}
+		for _, name := range names {
+			run("xpath-"+name, []byte(`{`+hdr("xml")+`,`+pos[name]+`}`), xin, false, "non-node-set-xpath")
+			js := strings.ReplaceAll(pos[name], `"/r/n`, `"/*`)
+			run("xpath-json-"+name, []byte(`{`+hdr("json")+`,`+js+`}`), jin, false, "non-node-set-xpath")
+		}
+		if !full {
+			continue
+		}
+		// record filters of the flat formats (FINAL_OUTPUT.xpath on csv / fixed-length / csv2 / fixedlength2 / edi)
+		fo := td(`{"xpath":`+q+`,"object":{"v":{"xpath":"a"}}}`, "")
+		run("xpath-filter-csv", []byte(fmt.Sprintf(`{%s,"file_declaration":{"delimiter":",","data_row_index":1,"columns":[{"name":"a"},{"name":"b"}]},%s}`, hdr("csv"), fo)), []byte("1,1\nx,2\n"), false, "non-node-set-xpath")
+		run("xpath-filter-fixed", []byte(fmt.Sprintf(`{%s,"file_declaration":{"envelopes":[{"columns":[{"name":"a","start_pos":1,"length":1},{"name":"b","start_pos":2,"length":1}]}]},%s}`, hdr("fixed-length"), fo)), []byte("11\nx2\n"), false, "non-node-set-xpath")
+		run("xpath-filter-csv2", []byte(fmt.Sprintf(`{%s,"file_declaration":{"delimiter":",","records":[{"name":"r","columns":[{"name":"a","index":1},{"name":"b","index":2}]}]},%s}`, hdr("csv2"), fo)), []byte("1,1\nx,2\n"), false, "non-node-set-xpath")
+		run("xpath-filter-fixedlength2", []byte(fmt.Sprintf(`{%s,"file_declaration":{"envelopes":[{"name":"e","columns":[{"name":"a","start_pos":1,"length":1},{"name":"b","start_pos":2,"length":1}]}]},%s}`, hdr("fixedlength2"), fo)), []byte("11\nx2\n"), false, "non-node-set-xpath")
+		run("xpath-filter-edi", []byte(fmt.Sprintf(`{%s,"file_declaration":{"segment_delimiter":"~","element_delimiter":"*","segment_declarations":[{"name":"S","is_target":true,"min":0,"max":-1,"elements":[{"name":"a","index":1},{"name":"b","index":2}]}]},%s}`, hdr("edi"), fo)), []byte("S*1*1~S*x*2~"), false, "non-node-set-xpath")
+	}
+
+	// 2d. hierarchies of every depth with an input that descends to the deepest level.  The JSON
+	// schema of csv2 / fixedlength2 costs 3^depth (known finding N4), which caps their depth here;
+	// EDI has no such cost.
+	maxFlat := 10
+	if x.o.Tier == "thorough" {
+		maxFlat = 12
+	}
+	for d := 1; d <= 16; d++ {
+		for _, branch := range []bool{false, true} {
+			// level i: a record Li that contains level i+1 (branch: plus a leaf sibling Xi after it)
+			csv2, fl2, edi := "[]", "[]", "[]"
+			for i := d; i >= 1; i-- {
+				sib2, sibf, sibe := "", "", ""
+				if branch && i > 1 {
+					sib2 = fmt.Sprintf(`,{"name":"X%d","header":"^X%d,","min":0}`, i, i)
+					sibf = fmt.Sprintf(`,{"name":"X%d","header":"^X%d ","min":0}`, i, i)
+					sibe = fmt.Sprintf(`,{"name":"X%d","min":0}`, i)
+				}
+				tgt := ""
+				if i == d {
+					tgt = `"is_target":true,`
+				}
+				csv2 = fmt.Sprintf(`[{"name":"L%d","header":"^L%d,",%s"min":0,"columns":[{"name":"a","index":2}],"child_records":%s}%s]`, i, i, tgt, csv2, sib2)
+				fl2 = fmt.Sprintf(`[{"name":"L%d","header":"^L%d ",%s"min":0,"columns":[{"name":"a","start_pos":5,"length":1}],"child_envelopes":%s}%s]`, i, i, tgt, fl2, sibf)
+				edi = fmt.Sprintf(`[{"name":"L%d",%s"min":0,"max":-1,"elements":[{"name":"a","index":1}],"child_segments":%s}%s]`, i, tgt, edi, sibe)
+			}
+			var in2, inf, ine strings.Builder
+			for rep := 0; rep < 2; rep++ {
+				for i := 1; i <= d; i++ {
+					fmt.Fprintf(&in2, "L%d,v\n", i)
+					fmt.Fprintf(&inf, "L%d %sv\n", i, strings.Repeat(" ", 2-len(fmt.Sprint(i))))
+					fmt.Fprintf(&ine, "L%d*v~", i)
+				}
+				if branch {
+					for i := d; i >= 2; i-- {
+						fmt.Fprintf(&in2, "X%d,v\n", i)
+						fmt.Fprintf(&inf, "X%d v\n", i)
+						fmt.Fprintf(&ine, "X%d*v~", i)
+					}
+				}
+			}
+			fo := `"transform_declarations":{"FINAL_OUTPUT":{"object":{"a":{"xpath":"a"}}}}`
+			if d <= maxFlat && !(branch && d > 9 && x.o.Tier != "thorough") {
+				run(fmt.Sprintf("depth-csv2-%d", d), []byte(fmt.Sprintf(`{%s,"file_declaration":{"delimiter":",","records":%s},%s}`, hdr("csv2"), csv2, fo)), []byte(in2.String()), false, "hierarchy-depth")
+				run(fmt.Sprintf("depth-fixedlength2-%d", d), []byte(fmt.Sprintf(`{%s,"file_declaration":{"envelopes":%s},%s}`, hdr("fixedlength2"), fl2, fo)), []byte(inf.String()), false, "hierarchy-depth")
+			}
+			run(fmt.Sprintf("depth-edi-%d", d), []byte(fmt.Sprintf(`{%s,"file_declaration":{"segment_delimiter":"~","element_delimiter":"*","segment_declarations":%s},%s}`, hdr("edi"), edi, fo)), []byte(ine.String()), false, "hierarchy-depth")
+		}
+	}
+
 	// 3. a persistent reader fault at every position
 	type fs struct {
 		name   string
